@@ -81,6 +81,7 @@ def gen(seed, tier):
                 o["U"] = 1
             if r.random() < 0.3:
                 o["c"] = 1
+            o["l"] = n % 3
             cases.append(("C14-%d" % n, "C", opts_str(o), seg(0, lines)))
             n += 1
     # rows at every AGE: the history is replayed with a simulated clock (kind D) and every row is observed as the table line
